@@ -36,6 +36,17 @@ def run_history(sd, strat, max_nodes):
     elif strat == "h2":
         sd.expand_attractor_seeds(size_limit=max_nodes)
         sd.expand_bfs(bfs_level_limit=1, size_limit=max_nodes + 4)
+    elif strat == "h4":
+        # single-node expansions in an order no strategy uses: the youngest stub first, one node at a time
+        sd.node_successors(sd.root(), compute=True)
+        for _ in range(max_nodes):
+            stubs = sorted(sd.stub_ids())
+            if not stubs or len(sd) > 4 * max_nodes:
+                break
+            sd.expand_bfs(node_id=stubs[-1], bfs_level_limit=0)
+            stubs = sorted(sd.stub_ids())
+            if stubs:
+                sd.expand_bfs(node_id=stubs[0], bfs_level_limit=0)
     elif strat == "h3":
         kids = sd.node_successors(sd.root(), compute=True)
         if kids:
@@ -100,7 +111,9 @@ def check_model(path, strat="bfs", max_nodes=6, selftest=False):
         fails.append(f"{label}: the root is not the percolation of the whole space")
     srcs = set(source_nodes(sd.network))
     checked = 0
-    for nid in list(sd.expanded_ids())[:max_nodes]:
+    # the root first, then the deepest expanded nodes (large fixed parts are where size-dependent code paths live)
+    order = sorted(sd.expanded_ids(), key=lambda i: (i != root, -sd.node_data(i)["depth"], i))
+    for nid in order[:max(6, max_nodes // 3)]:
         nd = sd.node_data(nid)
         if not nd["expanded"] or nd.get("skipped"):
             continue
